@@ -6,7 +6,7 @@
 # Keeps the change under /verif/seeded/<seed-id>/ with meta.json.
 set -u
 ID=$1; PROP=$2; SRC=$3
-CF=/tmp/cf-seed
+CF=/tmp/cf-$ID   # own scratch worktree (outside /repo and /verif), removed at the end
 LOG=/tmp/confirm-$ID.log
 : > $LOG
 if [ ! -d $CF ]; then
@@ -18,14 +18,14 @@ git -C $CF checkout -- . >> $LOG 2>&1
 INC="-I$CF/include -I$CF/_build/include -I/usr/include/eigen3"
 g++ -std=c++20 -O1 $INC $SRC/demo.cpp -o /tmp/demo-$ID-clean >> $LOG 2>&1 || { echo "RESULT demo does not compile on clean tree"; exit 1; }
 /tmp/demo-$ID-clean >> $LOG 2>&1; CLEAN=$?
-git -C $CF apply $SRC/patch.diff >> $LOG 2>&1 || { echo "RESULT patch does not apply"; exit 1; }
+git -C $CF apply $SRC/patch.diff >> $LOG 2>&1 || { echo "RESULT patch does not apply"; git -C /repo worktree remove --force $CF; exit 1; }
 cmake --build $CF/_build -- -j${JOBS:-16} >> $LOG 2>&1 || { echo "RESULT tests do not build with the patch"; git -C $CF checkout -- .; exit 1; }
 ctest --test-dir $CF/_build -j8 --timeout 900 > /tmp/ctest-$ID.log 2>&1; CT=$?
 TESTS=$(grep "tests passed" /tmp/ctest-$ID.log | tail -1)
 g++ -std=c++20 -O1 $INC $SRC/demo.cpp -o /tmp/demo-$ID-patched >> $LOG 2>&1
 /tmp/demo-$ID-patched >> $LOG 2>&1; PATCHED=$?
 echo "clean_demo_exit=$CLEAN patched_demo_exit=$PATCHED ctest_exit=$CT tests='$TESTS'"
-if [ $CLEAN -ne 0 ] || [ $PATCHED -eq 0 ] || [ $CT -ne 0 ]; then echo "RESULT not confirmed"; git -C $CF checkout -- .; exit 1; fi
+if [ $CLEAN -ne 0 ] || [ $PATCHED -eq 0 ] || [ $CT -ne 0 ]; then echo "RESULT not confirmed"; git -C /repo worktree remove --force $CF; exit 1; fi
 # run the property's quick check against the patched tree (evidence / replays redirected)
 mkdir -p /tmp/seed-ev /tmp/seed-rep
 ( cd /verif && VERIF_REPO=$CF VERIF_EVIDENCE_DIR=/tmp/seed-ev VERIF_REPLAY_DIR=/tmp/seed-rep/$ID timeout 3000 python3 run.py check $PROP --tier ${TIER:-quick} > /tmp/seedcheck-$ID.log 2>&1 ); CK=$?
@@ -43,5 +43,5 @@ json.dump(dict(seed_id="$ID", property="$PROP", tests="$TESTS", clean_demo_exit=
                          "VERIF_REPO=<worktree> python3 run.py check $PROP --tier ${TIER:-quick}"]),
           open("/verif/seeded/$ID/meta.json","w"), indent=1)
 PY
-git -C $CF checkout -- .
+git -C /repo worktree remove --force $CF
 echo "RESULT confirmed caught=$([ $NV -gt 0 ] && echo yes || echo NO)"
